@@ -104,7 +104,8 @@ def examine(prop, r, mobs, mbits):
         for k, b in enumerate(mbits):
             if not b:
                 continue
-            # per pool: slot, phase, not-lost, registries, life cycle + groups, map books, accounting, flush, wake-up
+            # per pool: slot, phase, not-lost, registries, life cycle + groups, map books, accounting, flush, wake-up,
+            # cancelled spawners stopped, no snapshot changed by the step, snapshot taken on cancellation
             # (pools separated by '.'; the first three only in the old format)
             groups = b[3:].split(".") if b.startswith("v2:") else [b[3 * i:3 * i + 3] for i in range(len(b) // 3)]
             for pi, g in enumerate(groups):
@@ -115,9 +116,10 @@ def examine(prop, r, mobs, mbits):
                 fixed = limit is None or k < limit
                 bad = pbit == "0" or (sbit == "0" and fixed)
                 if len(g) >= 9:
-                    names = ["slot", "phase", "lost", "registries", "life-cycle", "map-books", "accounting", "flush", "wake-up"]
-                    for idx in (3, 4, 5, 6, 7):
-                        if g[idx] == "0":
+                    names = ["slot", "phase", "lost", "registries", "life-cycle", "map-books", "accounting", "flush", "wake-up",
+                             "cancelled-spawners-stopped", "snapshot-kept", "snapshot-taken"]
+                    for idx in (3, 4, 5, 6, 7, 9, 10, 11):
+                        if idx < len(g) and g[idx] == "0":
                             bad = True
                     if g[8] == "0" and fixed:
                         bad = True
